@@ -21,7 +21,7 @@ import (
 // got its data - returned by the agent as two chunks in one check-in - whole and in order; A and B are gone from the table and their connections are closed; the
 // agent is told exactly once that B closed and never that A or C did ("closing either
 // side removes the socket everywhere" - and only that socket).
-func runTablesThreeClients(r *ev.Run) {
+func runTablesThreeClients(r *ev.Run, shard, nshards int) {
 	bound := 2
 	if r.Thorough() {
 		bound = 3
@@ -37,7 +37,7 @@ func runTablesThreeClients(r *ev.Run) {
 	name := "1 proxy, clients A B C: agent closes A | client B goes away | agent returns data for C"
 	outcomes := map[string]bool{}
 	t := explore.Tree{Bound: bound, Deadline: time.Now().Add(dl)}
-	t.Run(func(c *explore.Chooser) {
+	t.RunShard(shard, nshards, func(c *explore.Chooser) {
 		se := newSess(c, 60000, "SocksCli", "SocksSvr", "Connected", "Conn")
 		defer se.close()
 		conns := []*fake.Conn{fake.NewConn("A"), fake.NewConn("B"), fake.NewConn("C")}
@@ -149,7 +149,7 @@ func runTablesThreeClients(r *ev.Run) {
 	for o := range outcomes {
 		r.Outcome("tables3/" + o)
 	}
-	r.Extra["tables_scenario_three_clients"] = map[string]any{"name": name, "executions": t.Executions, "choice_points": t.Points, "preemption_bound": bound}
+	r.Extra["tables_scenario_three_clients"+shardTag(shard, nshards)] = map[string]any{"name": name, "executions": t.Executions, "choice_points": t.Points, "preemption_bound": bound}
 	r.Eval(int(t.Executions))
 	r.AddStates(t.Points, t.Points, t.Executions)
 }
